@@ -1,21 +1,4 @@
 package main
 
-import (
-	"errors"
-	"verifh/hx"
-)
-
-var errDeadline = errors.New("verif: deadline")
-
-func (x *c03) encoderCases()  {}
-func (x *c03) connCases()     {}
 func (x *c03) loopbackCases() {}
-
-type encScript struct{}
-type connScript struct{}
-
-func parseEncScript(f []string) encScript   { return encScript{} }
-func parseConnScript(f []string) connScript { return connScript{} }
-func (x *c03) encCase(s encScript)          {}
-func (x *c03) connCase(s connScript)        {}
-func runC19(c *hx.Ctx)                      {}
+func (x *c03) loopbackC19()   {}
